@@ -143,21 +143,22 @@ func VerifC02_Text() {
 	zzNote("out", out)
 	zzAssert(err == nil, "C02.text.render-error")
 	zzCover(len(d) == n, "full-length text reaches the serialiser")
-	esc := html.EscapeString(d)
 	switch kind {
 	case 0:
 		if strings.TrimSpace(d) == "" {
 			return // insignificant whitespace
 		}
-		zzAssert(out == "<p>"+esc+"</p>\n", "C02.text.single-child")
+		zzAssert(zzTagOpens(out) == 2, "C02.text.extra-markup")
+		zzAssert(zzSquash(zzUnescape(out)) == zzSquash("<p>"+d+"</p>"), "C02.text.single-child")
 	case 1:
 		if strings.TrimSpace(d) == "" {
 			return
 		}
-		zzAssert(zzSquash(out) == zzSquash("<p><b></b>"+esc+"<i></i></p>"), "C02.text.between-siblings")
+		zzAssert(zzTagOpens(out) == 6, "C02.text.extra-markup")
+		zzAssert(zzSquash(zzUnescape(out)) == zzSquash("<p><b></b>"+d+"<i></i></p>"), "C02.text.between-siblings")
 	case 2:
-		zzAssert(out == `<p title="`+html.EscapeString(strings.TrimSpace(d))+`"></p>`+"\n" || out == `<p title="`+esc+`"></p>`+"\n", "C02.text.attribute")
-		zzAssert(out == `<p title="`+esc+`"></p>`+"\n", "C02.text.attribute-untrimmed")
+		zzAssert(zzTagOpens(out) == 2 && zzTagQuotes(out) == 2, "C02.text.attribute-breakout")
+		zzAssert(zzUnescape(strings.TrimSpace(out)) == `<p title="`+d+`"></p>`, "C02.text.attribute-value")
 	}
 }
 
@@ -191,14 +192,15 @@ func VerifC02_Interp() {
 		if strings.TrimSpace(whole) == "" {
 			return
 		}
-		zzAssert(out == "<p>"+html.EscapeString(whole)+"</p>\n", "C02.interp.text-is-neighbours-plus-value")
+		zzAssert(zzTagOpens(out) == 2, "C02.interp.extra-markup")
+		zzAssert(zzSquash(zzUnescape(out)) == zzSquash("<p>"+whole+"</p>"), "C02.interp.text-is-neighbours-plus-value")
 	case 1:
-		zzAssert(zzTagQuotes(out) == 2, "C02.interp.attr-one-value")
-		zzAssert(out == `<p title="`+html.EscapeString(pre+val+post)+`"></p>`+"\n", "C02.interp.attr-is-neighbours-plus-value")
+		zzAssert(zzTagOpens(out) == 2 && zzTagQuotes(out) == 2, "C02.interp.attr-one-value")
+		zzAssert(zzUnescape(strings.TrimSpace(out)) == `<p title="`+pre+val+post+`"></p>`, "C02.interp.attr-is-neighbours-plus-value")
 	case 2:
 		if val == "" {
 			return
 		}
-		zzAssert(out == "<p>"+val+"</p>\n", "C02.interp.v-html-verbatim")
+		zzAssert(zzSquash(out) == zzSquash("<p>"+val+"</p>"), "C02.interp.v-html-verbatim")
 	}
 }
